@@ -94,6 +94,7 @@ fn via_eval(op: &str, x: &Constant, y: &Constant) -> Result<Constant, falcon::Er
 const OPS: &[&str] = &["add", "sub", "mul", "divu", "modu", "divs", "mods", "and", "or", "xor", "shl", "shr", "ashr",
     "cmpeq", "cmpneq", "cmpltu", "cmplts", "sra", "rotl"];
 
+fn deep() -> bool { std::env::var("VERIF_TIER").map(|t| t == "thorough").unwrap_or(false) } // thorough tier: wider bounds
 fn main() {
     std::panic::set_hook(Box::new(|_| {}));
     let mut found = 0usize;
@@ -122,7 +123,7 @@ fn main() {
         }
     };
     // exhaustive: widths 1..=6, all operand pairs, all operators
-    for w in 1..=6usize {
+    for w in 1..=(if deep() { 8usize } else { 6usize }) {
         for a in 0u64..(1 << w) { for b in 0u64..(1 << w) { for op in OPS {
             check(op, w, &BigUint::from(a), &BigUint::from(b), &mut found); evals += 1;
         } } }
